@@ -33,6 +33,10 @@
    * simple input with burnSteps = 0 is a single-state case: only nCycles = 1 is a legal input
      (settingsValidation: "Cannot run multi-cycle standard cases with 0 burnSteps per cycle").
    Rationals are exact (spec/common/Rational.tla); the adapter compares floats with rtol 1e-9.
+
+   Where the code departs from this model (reported by the check as violations, not modelled): in the "bs" form
+   _getStepAndCycleLengths divides by `burn steps` and later by the availability factor, so `burn steps: 0` and
+   `availability factor: 0` raise ZeroDivisionError instead of giving [] / n zero-length steps and the stated cycle length.
 *)
 EXTENDS Integers, Sequences, FiniteSets, TLC, Json, SequencesExt, FiniteSetsExt, Rational, CycleArithmeticDefs
 
